@@ -169,6 +169,12 @@ def check_field_semantics(ctx, rid_round="R3", rid_prec="R4", rid_defaults="R5")
                 got = fields_of(short, wi, mk(spinpol=sp), {}).get("spinmult")
                 if got != want:
                     return f"spin polarisation {sp} gives multiplicity {got!r}, expected {want}"
+            # no spin information: the documented default, whatever else is known about the object (an odd electron
+            # count, a charge, core charges)
+            for kw_ in ({"nelec": 9.0}, {"nelec": 10.0}, {"nelec": 9.0, "charge": None, "_atcorenums": np.array([8.0, 1.0])}, {"charge": 1.0}):
+                got = fields_of(short, wi, mk(spinpol=None, **kw_), {}).get("spinmult")
+                if got != 1:
+                    return f"an object without spin polarisation ({', '.join(f'{k}={v!r}' for k, v in kw_.items() if not k.startswith('_'))}) gets multiplicity {got!r}, documented default 1"
             # derived values: with orbitals the spin polarisation / electron count are those of the orbitals, with core
             # charges the charge is their sum minus the electrons -- whatever the hidden stored values say
             mo = Rec(mo_cls, kind="unrestricted", norba=5, norbb=5, occs=np.array([1.0] * 5 + [1.0, 1.0, 1.0, 0.0, 0.0]), coeffs=None, energies=None, irreps=None, occs_aminusb=None)  # 8 electrons, spin polarisation 2
